@@ -122,7 +122,8 @@ struct Personality {
     sixel: bool,
     decrqss: bool,
     truecolor: bool,
-    size_report: bool,
+    /// 0: answers both size queries, 1: neither, 2: only the pixel query (14t), 3: only the cell query (18t)
+    size_report: u8,
     kbd: bool,
     osc11: bool,
     kitty: bool,
@@ -144,6 +145,11 @@ struct Faults {
     short_write: bool,
     eagain: bool,
     short_read: bool,
+    /// the debugging copy of the output (`duplicate_output`) goes to a device that is full
+    tee_full: bool,
+    /// a read of the readable tty now and then fails with EAGAIN or EINTR (another reader got
+    /// there first; readiness was spurious; a signal handler ran)
+    read_retry: bool,
     select_eintr: bool,
 }
 
@@ -212,6 +218,7 @@ struct Kernel {
     /// replies the emulator garbled (their content can not be held against the library)
     mangled_replies: u64,
     quit_raised: u64,
+    read_retries: u32,
     /// characters the user has typed so far (at delivery into the tty input queue)
     typed: Vec<char>,
     /// events that ran while the app was inside poll
@@ -462,11 +469,11 @@ impl Kernel {
                 }
             }
             b't' => {
-                if self.person.size_report {
+                if self.person.size_report != 1 {
                     let ws = self.winsize;
-                    if text == "18" {
+                    if text == "18" && self.person.size_report != 2 {
                         self.reply(format!("\x1b[8;{};{}t", ws.ws_row, ws.ws_col).into_bytes());
-                    } else if text == "14" {
+                    } else if text == "14" && self.person.size_report != 3 {
                         let (h, w) = if ws.ws_ypixel == 0 { (ws.ws_row as u32 * 20, ws.ws_col as u32 * 10) } else { (ws.ws_ypixel as u32, ws.ws_xpixel as u32) };
                         self.reply(format!("\x1b[4;{};{}t", h, w).into_bytes());
                     }
@@ -673,6 +680,17 @@ impl rustix::sim::Hooks for HooksImpl {
             }
             k.src.sig_str("read:again");
             return Err(Errno::AGAIN);
+        }
+        if k.faults.read_retry && k.read_retries < 3 && k.src.chance(1, 6) {
+            // legal for a non-blocking descriptor that select reported readable; the data is
+            // still there and the next select reports it again
+            k.read_retries += 1;
+            k.src.fault("tty-read-fails-although-readable");
+            let again = k.src.chance(1, 2);
+            k.src.sig_str(if again { "read:spurious-again" } else { "read:eintr" });
+            let now = k.now;
+            k.src.log(|| format!("t={}us   sys: read(tty) -> {}", now / US, if again { "EAGAIN" } else { "EINTR" }));
+            return Err(if again { Errno::AGAIN } else { Errno::INTR });
         }
         let mut n = buf.len().min(k.in_queue.len());
         if k.faults.short_read && n > 1 && k.src.chance(1, 2) {
@@ -993,7 +1011,7 @@ fn new_kernel(mut src: Src) -> Kernel {
         sixel: src.chance(1, 4),
         decrqss: !src.chance(1, 3),
         truecolor: !src.chance(1, 3),
-        size_report: !src.chance(1, 3),
+        size_report: if src.chance(1, 3) { 1 + src.draw(3) as u8 } else { 0 },
         kbd: src.chance(1, 2),
         osc11: !src.chance(1, 3),
         kitty: src.chance(1, 3),
@@ -1004,6 +1022,8 @@ fn new_kernel(mut src: Src) -> Kernel {
         short_write: faults_on && src.chance(1, 2),
         eagain: faults_on && src.chance(1, 3),
         short_read: faults_on && src.chance(1, 2),
+        read_retry: faults_on && src.chance(1, 4),
+        tee_full: faults_on && src.chance(1, 16),
         select_eintr: faults_on && src.chance(1, 3),
     };
     let drain_chunk = *src.pick(&[1 << 20, 4096usize, 64, 7, 1]);
@@ -1058,6 +1078,7 @@ fn new_kernel(mut src: Src) -> Kernel {
         window_changes: 0,
         mangled_replies: 0,
         quit_raised: 0,
+        read_retries: 0,
         typed: Vec::new(),
         in_poll: false,
         events_in_poll: 0,
@@ -1104,6 +1125,7 @@ struct App {
     last_wake_event_step: u64,
     /// a poll with a finite timeout kept looping after its deadline and then delivered an event
     overstay: Option<String>,
+    spurious_quit: Option<String>,
     /// a Wake event overtook typed input the library had read before the wake was requested
     overtaken: Option<String>,
     /// counters at the last clean boundary (start of the current epoch)
@@ -1185,6 +1207,14 @@ impl App {
         let mut kk = k.borrow_mut();
         let now = kk.now;
         kk.src.log(|| format!("t={}us app: poll({:?}) -> {:?}", now / US, timeout, polled));
+        // Error::Quit means a termination signal or a hung-up terminal, nothing else: signals
+        // may coalesce, so there are never more quits than signals while the tty is alive
+        if matches!(polled, Polled::Quit) && !kk.hup && !kk.eio && !kk.dead && self.quit_seen > kk.quit_raised && self.spurious_quit.is_none() {
+            self.spurious_quit = Some(format!(
+                "poll({:?}) returned Error::Quit for the {}. time; {} termination signals had been raised, the tty had not hung up and no descriptor had failed",
+                timeout, self.quit_seen, kk.quit_raised
+            ));
+        }
         // the loop of a poll with a finite timeout runs at most once more after the deadline; a
         // poll that keeps going round while it already holds an event starves that event for as
         // long as whatever keeps it looping (pending output, a slow terminal) lasts
@@ -1272,6 +1302,21 @@ impl App {
                         told,
                         reported
                     ),
+                ));
+            }
+        }
+        // ... and with or without a change, with nothing in flight the terminal object reports
+        // the size the window has (answers to the size queries of detection may have arrived
+        // one at a time, late, or not at all)
+        if k.mangled_replies == 0 {
+            let cells = (k.winsize.ws_row as usize, k.winsize.ws_col as usize);
+            let reported = self.term.as_ref().and_then(|t| t.size().ok()).map(|s| (s.cells.height, s.cells.width));
+            if reported.is_some() && reported != Some(cells) {
+                return Err(violation(
+                    "C17",
+                    "C17.signal",
+                    "size-reported-differs-from-window",
+                    format!("at a clean boundary ({which}) the window is {}x{} cells but size() reports {:?}", cells.0, cells.1, reported),
                 ));
             }
         }
@@ -1441,6 +1486,7 @@ fn session(ctx: &Ctx, kernel: &K) -> WorldResult {
         blocked_excused: false,
         last_wake_event_step: 0,
         overstay: None,
+        spurious_quit: None,
         overtaken: None,
         epoch: Epoch::default(),
         epochs: 0,
@@ -1473,6 +1519,15 @@ fn session(ctx: &Ctx, kernel: &K) -> WorldResult {
     app.keys.clear();
     let wakes_before = app.wakes_seen;
     let _ = wakes_before;
+
+    if clean_start && kernel.borrow().faults.tee_full {
+        // every write to the copy fails once its 8 KiB buffer is full: polls start to fail,
+        // but what the tty has accepted must not be sent to it again
+        let res = app.term.as_mut().unwrap().duplicate_output("/dev/full");
+        let mut k = kernel.borrow_mut();
+        k.src.fault("output-copy-on-full-device");
+        k.src.log(|| format!("app: duplicate_output(/dev/full) -> {:?}", res.is_ok()));
+    }
 
     // ---- the script
     let max_ops = if ctx.tier == Tier::Quick { 16 } else { 40 };
@@ -1578,7 +1633,19 @@ fn session(ctx: &Ctx, kernel: &K) -> WorldResult {
                         2 => Some(Duration::from_millis(1 + k.src.draw(2000) as u64)),
                         _ => {
                             if something_owed {
-                                None
+                                // "for ever" is spelled None, or as a duration that no clock
+                                // can add to the present
+                                match k.src.draw(16) {
+                                    14 => {
+                                        k.src.probe("poll-with-the-largest-duration");
+                                        Some(Duration::MAX)
+                                    }
+                                    15 => {
+                                        k.src.probe("poll-with-the-largest-duration");
+                                        Some(Duration::from_secs(u64::MAX))
+                                    }
+                                    _ => None,
+                                }
                             } else {
                                 Some(Duration::from_millis(1))
                             }
@@ -1883,6 +1950,9 @@ fn session(ctx: &Ctx, kernel: &K) -> WorldResult {
         if let Some(msg) = app.overstay.take() {
             return Err(violation("C17", "C17.unbounded-poll", "event-held-past-deadline", msg));
         }
+        if let Some(msg) = app.spurious_quit.take() {
+            return Err(violation("C17", "C17.signal", "quit-without-signal-or-hang-up", msg));
+        }
     }
     if app.blocked && !app.blocked_excused && prop == "C17" {
         // a poll blocked for ever: legitimate only if nothing was owed
@@ -2021,6 +2091,13 @@ fn session(ctx: &Ctx, kernel: &K) -> WorldResult {
             kernel.borrow_mut().src.probe("stall-or-failure-during-dispose");
             return Ok(());
         }
+        if k.faults.tee_full {
+            // the polls of dispose fail with the error of the output copy: the closing sequence
+            // clause is about the tty, not about a debugging file on a full device
+            drop(k);
+            kernel.borrow_mut().src.probe("output-copy-failing-during-dispose");
+            return Ok(());
+        }
         if k.quits_in_dispose > 3 {
             // a storm of termination signals while the terminal is being released is read as
             // "stop now": the library is allowed to give up on the closing sequence
@@ -2089,7 +2166,7 @@ fn session(ctx: &Ctx, kernel: &K) -> WorldResult {
     // under the conditions in which the release has to deliver everything (the same as for the
     // closing-sequence clause of C17) the frame in flight and the epilogue must have come out
     // completely: a torn frame at release is a torn frame
-    let drained = healthy && responsive && stall_free && !k.trouble_in_dispose && k.quits_in_dispose <= 3 && !app.blocked && !k.eio && !k.hup;
+    let drained = healthy && !k.faults.tee_full && responsive && stall_free && !k.trouble_in_dispose && k.quits_in_dispose <= 3 && !app.blocked && !k.eio && !k.hup;
     drop(k);
     history.finish(drained, &|pos| expected[pos as usize])
 }
